@@ -150,7 +150,7 @@ def build(variant, repo=None, quiet=True):
         gen_conv_table(repo, os.path.join(bdir, "conv_table.inc"))
         hs = os.path.join(VERIF, "harness")
         gen_ops_list(hs, os.path.join(bdir, "ops_list.inc"))
-        drv = ["vnadrv.c", "failalloc.c"]
+        drv = ["vnadrv.c", "failalloc.c", "failio.c"]
         peek = os.path.join(hs, "peek.c")
         mk = []
         objs = []
